@@ -34,7 +34,7 @@ def run(rep, tier, seed):
                                              MaxSaves=2, MaxQueries=2), cap=8000, rich=True)
         else:
             chk.run_config('promote', consts(Cats=['A', 'AB'], Metas=METAS_SMALL[:3], Ops=['get', 'getmeta', 'promote', 'mutate'],
-                                             MaxSaves=2, MaxQueries=3), cap=100000, rich=True)
+                                             MaxSaves=2, MaxQueries=3), cap=40000, rich=True)
             ex = chk.run_config('hist', consts(Cats=['A', 'AB', 'A_B'], Metas=METAS_SMALL[:3], Ops=['get', 'getmeta', 'unknown', 'mutate'],
                                                MaxSaves=2, MaxQueries=2), cap=300000, rich=True, n_seeds=3)
             chk.run_config('hist4', consts(Cats=['A', 'AB'], Metas=METAS_SMALL[2:3], Ops=['get', 'getmeta', 'unknown'],
